@@ -21,6 +21,8 @@ import (
 
 var c01Alphabet = []string{"(", ")", "[", "]", "{", "}", "'", "\"", "`", "^", "~", "~@", "%", ":", ":=", "=", ".", ",", ";", "#", "?", "&", "$", "\\", "->", "<-", "-", "+", "*", "/", "**", "<", "!", "1", "-1", "2.5", "1e3", "0x1F", "12ULL", "a", "a:", "a.b", "#a", "'c'", "\"s\"", "and", "or", "cond", "let", "def", "fn", "defn", "for", "break", "continue", "quote", "set", "begin", "defmac", "macexpand", "syntaxQuote", "include", "package", "return", "newScope", "letseq", "mdef", "assert", "hash", "list", "nil", "if", "else", "not", "range", "struct", "func", "method", "interface", "var", "infix", "comma", "//", "/*", "*/", "\n", "++", "+=", "==", "Inf", "NaN", "unquote", "unquote-splicing", "&&", "_ls", "raw64", "field", "label:", "true"}
 
+var c01Infix = []string{"1", "a", "a:", "top:", ";", ",", "=", ":=", "+", "-", "*", "**", "<", "==", "and", "not", "if", "else", "for", "range", "break", "continue", "{", "}", "[", "]", "(", ")", ".", "a.b", "a[1]", "\"s\"", "++", "+=", "(f a)", "\n"}
+
 // names that legitimately end, block or leave the process when called
 var c01Deny = map[string]bool{"exit": true, "stop": true, "sys": true, "system": true, "sleep": true, "makeChan": true, "send": true, "<!": true, "recv": true, "!>": true, "readline": true, "input": true,
 	"writef": true, "owritef": true, "save": true, "bsave": true, "greenpack": true, "chdir": true, "go": true, "_closdump": true, "timeit": true, "setenv": true, "cd": true,
@@ -72,12 +74,12 @@ func c01Setup(c *core.Ctx) {
 	})
 }
 
-type c01plan struct{ tok1, tok2, tok3, shapes, names, mut, chaos, cyc, seq, repl int }
+type c01plan struct{ tok1, tok2, tok3, infix, shapes, names, mut, chaos, cyc, seq, repl int }
 
 func c01Plan(c *core.Ctx) c01plan {
 	c01Setup(c)
 	k := len(c01Alphabet)
-	p := c01plan{tok1: 1, tok2: k, shapes: len(c01special), names: len(c01names), mut: thorN(c, 600, 12000), chaos: thorN(c, 800, 15000), cyc: 12, seq: thorN(c, 20, 200), repl: thorN(c, 12, 120)}
+	p := c01plan{tok1: 1, tok2: k, infix: len(c01Infix), shapes: len(c01special), names: len(c01names), mut: thorN(c, 600, 12000), chaos: thorN(c, 800, 15000), cyc: 12, seq: thorN(c, 20, 200), repl: thorN(c, 12, 120)}
 	if c.Thor {
 		p.tok3 = k * k
 	}
@@ -88,17 +90,18 @@ func init() {
 	core.Register(&core.Prop{
 		ID:    "C01",
 		Level: "exploration",
-		Rule: "inputs: (1) every string of 1 and 2 (quick) / 1..3 (thorough) tokens over a 103-token alphabet (every bracket, quote, sigil and operator character, one literal of each numeric notation, string/char/raw-string openers, comment openers, every special-form name), with and without blanks between tokens; (2) every special form of the compiler and every name bound after StandardSetup (except the ones that end, block or leave the process by design) with 0..4 arguments over 29 argument kinds; (3) byte- and token-level mutations (delete, duplicate, swap, truncate, splice) of the tests/*.zy corpus; (4) generated programs in chaos mode (ill-typed calls, wrong arities, out-of-range indices, tokens replaced by brackets/sigils); (5) self-referential arrays/hashes printed, compared, encoded and converted; (6) sequences of hostile inputs against one long-lived interpreter; (7) lines fed to the real REPL (cmd/zygo -no-liner) and texts given to cmd/zygo -c. " +
+		Rule: "inputs: (1) every string of 1 and 2 (quick) / 1..3 (thorough) tokens over a 103-token alphabet, and every infix block { … } with a body of 2 (a fifth of them 3; thorough all 3) tokens over a 36-token infix alphabet with 0-2 line/block comments after the brace (every bracket, quote, sigil and operator character, one literal of each numeric notation, string/char/raw-string openers, comment openers, every special-form name), with and without blanks between tokens; (2) every special form of the compiler and every name bound after StandardSetup (except the ones that end, block or leave the process by design) with 0..4 arguments over 29 argument kinds; (3) byte- and token-level mutations (delete, duplicate, swap, truncate, splice) of the tests/*.zy corpus; (4) generated programs in chaos mode (ill-typed calls, wrong arities, out-of-range indices, tokens replaced by brackets/sigils); (5) self-referential arrays/hashes printed, compared, encoded and converted; (6) sequences of hostile inputs against one long-lived interpreter; (7) lines fed to the real REPL (cmd/zygo -no-liner) and texts given to cmd/zygo -c. " +
 			"Entry points: EvalString, LoadString+Run, Parser.ParseTokens whole and in two pieces, EvalExpressions on the parsed forms, macro definition+expansion. Monitor: a recover() boundary around every call (anything reaching it escaped the library), child-process death attributed through the journal (fatal errors, exit), (nil,nil) results, results whose printing fails, and the VM step budget; a watchdog hit outside the VM loop that reproduces alone is a hang. non-trivial = every distinct input",
 		Assumptions: []string{
 			"names that end, block or leave the process by design (exit, stop, sys, system, sleep, channel operations, file writers, timeit, go) are not called; resource exhaustion by honestly expensive programs is classified inconclusive by the step budget",
 		},
 		NCases: func(c *core.Ctx) int {
 			p := c01Plan(c)
-			return p.tok1 + p.tok2 + p.tok3 + p.shapes + p.names + p.mut + p.chaos + p.cyc + p.seq + p.repl
+			return p.tok1 + p.tok2 + p.tok3 + p.infix + p.shapes + p.names + p.mut + p.chaos + p.cyc + p.seq + p.repl
 		},
-		Chunk:           40,
+		Chunk:           8,
 		CaseTimeoutS:    40,
+		StallS:          8,
 		HangIsViolation: true,
 		NeedsZygoBin:    true,
 		MustSee:         []string{"eval_calls", "parse_calls", "evalexpr_calls", "loadrun_calls", "repl_lines", "cli_runs", "token_strings", "form_shapes", "mutations"},
@@ -121,7 +124,7 @@ func c01Kind(c *core.Ctx, i int) (string, int) {
 	for _, k := range []struct {
 		name string
 		n    int
-	}{{"tok1", p.tok1}, {"tok2", p.tok2}, {"tok3", p.tok3}, {"shapes", p.shapes}, {"names", p.names}, {"mut", p.mut}, {"chaos", p.chaos}, {"cyc", p.cyc}, {"seq", p.seq}, {"repl", p.repl}} {
+	}{{"tok1", p.tok1}, {"tok2", p.tok2}, {"tok3", p.tok3}, {"infix", p.infix}, {"shapes", p.shapes}, {"names", p.names}, {"mut", p.mut}, {"chaos", p.chaos}, {"cyc", p.cyc}, {"seq", p.seq}, {"repl", p.repl}} {
 		if i < k.n {
 			return k.name, i
 		}
@@ -167,6 +170,7 @@ func (r *c01runner) input(src string) {
 		r.fresh()
 	}
 	r.n++
+	core.Beat()
 	fmt.Fprintf(os.Stderr, "C01-INPUT %q\n", core.Trunc(src, 2000)) // last line in the worker output names the killer
 	// EvalString
 	o := sut.Eval(r.env, src, 300000)
@@ -244,6 +248,25 @@ func c01Run(c *core.Ctx, i int) *core.Result {
 			both([]string{a, b, cc})
 		}
 		res.Input = fmt.Sprintf("all token triples starting with %q %q", a, b)
+	case "infix":
+		// infix blocks: every body of 2 (and, thorough, 3) tokens over the infix alphabet,
+		// with 0-2 line/block comments between the brace and the body
+		I := c01Infix
+		cms := []string{"", "// c\n", "// c\n// d\n", "/* c */", "/* c */ /* d */ ", "// c\n/* d */ // e\n"}
+		a := I[k]
+		for bi, b := range I {
+			cm := cms[(k+bi)%len(cms)]
+			r.input("{" + cm + " " + a + " " + b + " }\n")
+			r.input("{" + a + " " + b + cm + "}\n")
+			res.Ev("token_strings", 1)
+			if c.Thor || (k+bi)%5 == 0 {
+				for _, cc := range I {
+					r.input("{ " + a + " " + b + " " + cc + " }\n")
+					res.Ev("token_strings", 1)
+				}
+			}
+		}
+		res.Input = fmt.Sprintf("infix blocks starting with %q", a)
 	case "shapes", "names":
 		name := ""
 		if kind == "shapes" {
